@@ -3,7 +3,7 @@
 Built on gen/scenario.py (exact grid: --freq 512, integer / dyadic microsecond times) and extended
 with what the statements quantify over: host slices as X and as adjacent B/E pairs, ties, nesting,
 partial overlaps up to the five-extra-lane budget, zero and negative durations (documented
-removal), very short device slices (1/16 us), names hit by --drop_globals, metadata events,
+removal), very short device slices (1/16 us), sub-nanosecond host slices (2^-12 us), names hit by --drop_globals, metadata events,
 user-supplied argument keys (in attr/args and as an unknown top-level key), counter epochs near the
 2^32 wrap.  Every input slice carries a unique `uid`.
 
@@ -33,6 +33,8 @@ def random_spec(rng, big=False):
         "overlap_depth": rng.choice([0, 1, 2, 3, 5]),
         "short": rng.random() < 0.7,
         "bad_dur": rng.random() < 0.7,
+        # positive durations far below a nanosecond (2^-12, 2^-11 us), as B/E pair and as X: still slices
+        "sub_ns": rng.random() < 0.6,
         "near_wrap": rng.random() < 0.4,
         "meta": rng.random() < 0.5,
         "x_form": rng.random() < 0.5,
@@ -125,6 +127,11 @@ def build(spec):
             host("zero_dur", 503, 400.0, 400.0)
             host("neg_dur", 503, 410.0, 409.0)
             host("zero_dur_x", 503, 420.0, 420.0, x_form=True)
+        if spec.get("sub_ns"):
+            host("tick_be_quarter_ns", 504, 440.0, 440.0 + 2.0 ** -12)
+            host("tick_be_half_ns", 504, 445.0, 445.0 + 2.0 ** -11)
+            host("tick_x_quarter_ns", 504, 450.0, 450.0 + 2.0 ** -12, x_form=True)
+            host("tick_be_ns", 504, 455.0, 455.0 + 2.0 ** -10)
         evs = []
         pairs.sort(key=lambda p: p[0]["ts"])
         for b, e in pairs:
